@@ -4,6 +4,7 @@
 Table rules over the two built-in maps (every entry, on every run) and shape
 rules over the protection / unknown-character policies."""
 import ast
+from .. import symex
 import re
 from ..core import (enclosing_func, AnalysisError, short, unparse, iter_own, call_name, call_recv, kwarg,
                     is_self_attr, atomic_facts, parents, enclosing_stmt)
@@ -335,9 +336,16 @@ def run(ctx):
                    'an unbalanced fragment reaches the output)' % (pol, [short(r.value) for r in rets]),
                    construct='policy ' + pol)
     ff = meths.get('_do_unknown_char_fail')
-    ok = ff is not None and len([s for s in ff.body if not (isinstance(s, ast.Expr) and isinstance(
-        s.value, ast.Constant))]) == 1 and isinstance(ff.body[-1], ast.Raise) and \
-        isinstance(ff.body[-1].exc, ast.Call) and unparse(ff.body[-1].exc.func) == 'ValueError'
+    ok = False
+    if ff is not None:
+        # every way out of the method is `raise ValueError(...)` (message built in locals or inline)
+        try:
+            exits = symex.Walker(want_exits=True).run(ff)
+        except symex.TooManyPaths:
+            exits = []
+        ok = bool(exits) and all(
+            c.kind == 'raise' and isinstance(c.node.exc, ast.Call) and unparse(c.node.exc.func) == 'ValueError'
+            for c in exits)
     ctx.decide('R13d', ok, m, ff or m.cls('UnicodeToLatexEncoder'), 'fail raises ValueError',
                '_do_unknown_char_fail does not unconditionally raise ValueError', construct='policy fail')
 
@@ -376,6 +384,11 @@ def run(ctx):
               'encoder package' % n_fn, construct='partial-call scan', trivial=True)
     ctx.assume('a strict parse of arbitrary concatenations of replacements and copied input is not '
                'decided; the ten active characters are the ones named in the property')
+    # ---- R13k
+    ctx.rule('R13k', 'the built-in rule sets hand the checked tables to the encoder unchanged (table, copy or '
+                     'read-only view)', 2)
+    _table_passthrough(ctx, repo)
+
     return 'other', (
         'Evaluates both built-in tables entry by entry (%d entries) against the inertness '
         'conditions, and decides the shape of the protection and unknown-character policies and of '
@@ -426,3 +439,57 @@ def _fallback_only(sub, repo, m, meths):
         c04.rules(px, repo, m, meths)
     finally:
         c09._module_state = saved
+
+
+
+def _table_passthrough(ctx, repo):
+    """R13k: the rule sets named 'defaults' and 'unicode-xml' hand the checked tables to the
+    encoder unchanged (the table, a copy or a read-only view of it), so what R13a/R13b decide
+    about the table entries holds for the replacements the encoder emits"""
+    gm = repo.mod('pylatexenc.latexencode.get_builtin_rules')
+    fn = gm.functions.get('get_builtin_conversion_rules')
+    if fn is None:
+        raise AnalysisError('anchor vanished: get_builtin_conversion_rules')
+    VIEW = ('dict', '_MappingProxyType', 'MappingProxyType', 'copy')
+
+    def is_table(e, depth=0):
+        """e is a built-in table, a view/copy of one, or a module-level getter returning one"""
+        if depth > 3:
+            return False
+        if isinstance(e, ast.Call) and call_name(e) in VIEW:
+            inner = e.args[0] if e.args else call_recv(e)
+            return inner is not None and is_table(inner, depth + 1)
+        if isinstance(e, ast.Attribute) and e.attr == 'uni2latex':
+            return True
+        if isinstance(e, ast.Name) and e.id.lstrip('_') == 'uni2latex':
+            return True
+        if isinstance(e, ast.Call) and isinstance(e.func, ast.Name) and e.func.id in gm.functions and not e.args:
+            g = gm.functions[e.func.id]
+            try:
+                rc = [c for c in symex.Walker(want_returns=True, pure=VIEW).run(g) if c.kind == 'return']
+            except symex.TooManyPaths:
+                return False
+            return bool(rc) and all(is_table(c.sub, depth + 1) for c in rc)
+        return False
+    try:
+        cases = symex.Walker(is_sink=lambda c: call_name(c) == 'UnicodeToLatexConversionRule', pure=VIEW).run(fn)
+    except symex.TooManyPaths as e:
+        ctx.unknown('R13k', gm, fn, str(e), construct='built-in rule sets')
+        return
+    n = 0
+    for cs in cases:
+        rt = kwarg(cs.sub, 'rule_type')
+        if rt is None or unparse(rt) != 'RULE_DICT':
+            continue
+        n += 1
+        r = kwarg(cs.sub, 'rule')
+        ctx.decide('R13k', r is not None and is_table(r), gm, cs.node,
+                   'rule set [%s]: the dictionary rule is the built-in table itself (or a view/copy): %s'
+                   % (' & '.join(cs.cond_src())[:60], short(r, 60) if r is not None else '?'),
+                   'rule set [%s]: the dictionary rule is %s, a mapping computed from the built-in table, not the '
+                   'table whose entries were checked: rewritten replacement texts (an accent macro stripped of its '
+                   'empty argument `{}`) reach the output unchecked and no longer parse'
+                   % (' & '.join(cs.cond_src())[:60], short(r, 90) if r is not None else '?'),
+                   construct='get_builtin_conversion_rules: ' + ' & '.join(cs.cond_src())[:60])
+    if n < 2:
+        ctx.unknown('R13k', gm, fn, 'fewer than two dictionary rule sets found (%d)' % n, construct='built-in rule sets')
